@@ -1,21 +1,214 @@
 (* Inbound side of PacketConn: packet() and next() reassemble exactly the framed commands under
    every chunking of the byte stream.  Proofs only (statements fixed; helpers may be added). *)
-From MsqlVerif Require Import Model.Packet Spec.Frame Proofs.BaseLemmas.
+From MsqlVerif Require Import Model.Packet Spec.Frame Proofs.BaseLemmas Proofs.FrameLemmas.
 From Coq Require Import Lia.
 Open Scope N_scope.
+
+(* ---- helpers: lists ---- *)
+
+Lemma app_split {A} (x y a b : list A) : x ++ y = a ++ b ->
+  (exists l, x = a ++ l /\ l ++ y = b) \/ (exists l, l <> [] /\ a = x ++ l /\ y = l ++ b).
+Proof.
+  intros H. apply app_eq_app in H. destruct H as [l [[H1 H2]|[H1 H2]]].
+  - left. exists l. split; [assumption|symmetry; assumption].
+  - destruct l as [|c l].
+    + left. exists []. rewrite app_nil_r in *. cbn [app] in *. subst. split; reflexivity.
+    + right. exists (c :: l). split; [discriminate|]. split; assumption.
+Qed.
+
+Lemma pkt_assoc (h : bytes) qb body F rest :
+  (h ++ qb :: body ++ F) ++ rest = h ++ qb :: body ++ (F ++ rest).
+Proof. rewrite <- app_assoc. cbn [app]. rewrite <- app_assoc. reflexivity. Qed.
+
+Lemma pkt_assoc1 (h : bytes) qb body rest :
+  (h ++ qb :: body) ++ rest = h ++ qb :: body ++ rest.
+Proof. rewrite <- app_assoc. reflexivity. Qed.
+
+(* ---- helpers: the two nom parsers ---- *)
+
+Lemma pow24 : 2 ^ 24 = 256 ^ N.of_nat 3.
+Proof. reflexivity. Qed.
+
+Lemma le_bytes3_shape x : exists a b c, le_bytes 3 x = [a; b; c].
+Proof. cbn [le_bytes]. eauto. Qed.
+
+Lemma N_of_b_of_N_small q : q < 256 -> N_of_b (b_of_N q) = q.
+Proof. intros Hq. rewrite N_of_b_of_N. apply N.mod_small. assumption. Qed.
+
+Lemma bytes_eqb_refl a : bytes_eqb a a = true.
+Proof. apply bytes_eqb_eq. reflexivity. Qed.
+
+Lemma try_full_frame lim q body rest :
+  q < 256 -> Nlen body = lim ->
+  try_full lim (le_bytes 3 lim ++ b_of_N q :: body ++ rest) = Some (q, body, rest).
+Proof.
+  intros Hq Hb. destruct (le_bytes3_shape lim) as (a & b & c & E).
+  unfold try_full. rewrite E. cbn [app]. rewrite bytes_eqb_refl.
+  rewrite <- Hb. rewrite take_cnt_app. rewrite N_of_b_of_N_small by assumption. reflexivity.
+Qed.
+
+Lemma try_full_other lim l r :
+  l <> lim -> l < 2 ^ 24 -> lim < 2 ^ 24 -> try_full lim (le_bytes 3 l ++ r) = None.
+Proof.
+  intros Hne Hl Hlim. destruct (le_bytes3_shape l) as (a & b & c & E).
+  unfold try_full. rewrite E. cbn [app]. destruct r as [|qb r]; [reflexivity|].
+  destruct (bytes_eqb [a; b; c] (le_bytes 3 lim)) eqn:Eb; [|reflexivity].
+  exfalso. apply Hne. apply bytes_eqb_eq in Eb. rewrite <- E in Eb.
+  rewrite pow24 in *. apply (le_bytes_inj 3); assumption.
+Qed.
+
+Lemma try_one_frame l q body rest :
+  q < 256 -> l < 2 ^ 24 -> Nlen body = l ->
+  try_one (le_bytes 3 l ++ b_of_N q :: body ++ rest) = Some (q, body, rest).
+Proof.
+  intros Hq Hl Hb. destruct (le_bytes3_shape l) as (a & b & c & E).
+  unfold try_one. rewrite E. cbn [app]. rewrite <- E.
+  rewrite le_val_le_bytes by (rewrite <- pow24; assumption).
+  rewrite <- Hb. rewrite take_cnt_app. rewrite N_of_b_of_N_small by assumption. reflexivity.
+Qed.
+
+(* a packet (header, id, body) cut anywhere before its end: neither parser succeeds *)
+Lemma cut_pkt lim l qb body x z :
+  lim < 2 ^ 24 -> l < 2 ^ 24 -> Nlen body = l ->
+  le_bytes 3 l ++ qb :: body = x ++ z -> z <> [] ->
+  try_full lim x = None /\ try_one x = None.
+Proof.
+  intros Hlim Hl Hb Heq Hz. destruct (le_bytes3_shape l) as (a & b & c & E).
+  rewrite E in Heq. cbn [app] in Heq.
+  destruct x as [|a' [|b' [|c' [|q' r]]]]; try (split; reflexivity).
+  cbn [app] in Heq. injection Heq as <- <- <- <- Hbody.
+  assert (Hr : Nlen r < l).
+  { rewrite <- Hb, Hbody, Nlen_app. destruct z as [|z0 z]; [congruence|].
+    rewrite Nlen_cons. lia. }
+  split.
+  - unfold try_full. destruct (bytes_eqb [a; b; c] (le_bytes 3 lim)) eqn:Eb; [|reflexivity].
+    apply bytes_eqb_eq in Eb. rewrite <- E in Eb.
+    assert (l = lim) by (rewrite pow24 in *; apply (le_bytes_inj 3); assumption).
+    subst lim. rewrite take_cnt_short by assumption. reflexivity.
+  - unfold try_one. rewrite <- E.
+    rewrite le_val_le_bytes by (rewrite <- pow24; assumption).
+    rewrite take_cnt_short by assumption. reflexivity.
+Qed.
+
+(* ---- helpers: one iteration of packet_f ---- *)
+
+Definition acc_ok (acc : option (N * bytes)) (q : N) : Prop :=
+  match acc with None => True | Some (q0, _) => q = (q0 + 1) mod 256 end.
+Definition acc_pay (acc : option (N * bytes)) : bytes :=
+  match acc with None => [] | Some (_, p0) => p0 end.
+
+Lemma packet_f_full_step f lim acc q body rest x :
+  acc_ok acc q -> try_full lim x = Some (q, body, rest) ->
+  packet_f (S f) lim acc x = packet_f f lim (Some (q, acc_pay acc ++ body)) rest.
+Proof.
+  intros Hacc Hfull. cbn [packet_f]. rewrite Hfull.
+  destruct acc as [[q0 p0]|]; cbn [acc_ok acc_pay app] in *.
+  - rewrite <- Hacc. rewrite N.eqb_refl. reflexivity.
+  - reflexivity.
+Qed.
+
+Lemma packet_f_one_step f lim acc q body rest x :
+  acc_ok acc q -> try_full lim x = None -> try_one x = Some (q, body, rest) ->
+  packet_f (S f) lim acc x = PDone q (acc_pay acc ++ body) rest.
+Proof.
+  intros Hacc Hfull Hone. cbn [packet_f]. rewrite Hfull, Hone.
+  destruct acc as [[q0 p0]|]; cbn [acc_ok acc_pay app] in *.
+  - rewrite <- Hacc. rewrite N.eqb_refl. reflexivity.
+  - reflexivity.
+Qed.
+
+Lemma packet_f_need f lim acc x :
+  try_full lim x = None -> try_one x = None -> packet_f (S f) lim acc x = PNeed.
+Proof. intros Hfull Hone. cbn [packet_f]. rewrite Hfull, Hone. reflexivity. Qed.
+
+Lemma succ_lt256 q : (q + 1) mod 256 < 256.
+Proof. apply N.mod_lt. lia. Qed.
+
+(* ---- packet() on a complete frame ---- *)
+
+Lemma packet_f_frame lim : 0 < lim -> lim < 2 ^ 24 ->
+  forall n p, (length p < n)%nat -> forall fuel q acc rest,
+  q < 256 -> acc_ok acc q -> (length (frame lim q p ++ rest) < fuel)%nat ->
+  packet_f fuel lim acc (frame lim q p ++ rest) = PDone (last_seq lim q p) (acc_pay acc ++ p) rest.
+Proof.
+  intros Hlim Hlim24. induction n as [|n IH]; intros p Hn fuel q acc rest Hq Hacc Hfuel; [lia|].
+  destruct fuel as [|f]; [lia|].
+  rewrite (frame_unfold lim q p Hlim) in *.
+  destruct (N.leb_spec lim (Nlen p)) as [Hle|Hgt].
+  - assert (Hb : Nlen (firstn (N.to_nat lim) p) = lim) by (apply Nlen_firstn_le; exact Hle).
+    rewrite pkt_assoc in *.
+    rewrite (packet_f_full_step f lim acc q _ _ _ Hacc (try_full_frame lim q _ _ Hq Hb)).
+    rewrite IH.
+    + f_equal.
+      * apply last_seq_step; assumption.
+      * cbn [acc_pay]. rewrite <- app_assoc. rewrite firstn_skipn. reflexivity.
+    + apply length_skipn_lt; assumption.
+    + apply succ_lt256.
+    + cbn [acc_ok]. reflexivity.
+    + rewrite app_length in Hfuel. cbn [length] in Hfuel. rewrite app_length in Hfuel. lia.
+  - rewrite pkt_assoc1.
+    rewrite (packet_f_one_step f lim acc q p rest).
+    + rewrite last_seq_small by assumption. reflexivity.
+    + assumption.
+    + apply try_full_other; lia.
+    + apply try_one_frame; [assumption|lia|reflexivity].
+Qed.
+
+(* ---- packet() on a strict prefix of a frame ---- *)
+
+Lemma packet_f_prefix lim : 0 < lim -> lim < 2 ^ 24 ->
+  forall n p, (length p < n)%nat -> forall fuel q acc x y,
+  q < 256 -> acc_ok acc q -> x ++ y = frame lim q p -> y <> [] -> (length x < fuel)%nat ->
+  packet_f fuel lim acc x = PNeed.
+Proof.
+  intros Hlim Hlim24. induction n as [|n IH]; intros p Hn fuel q acc x y Hq Hacc Heq Hy Hfuel; [lia|].
+  destruct fuel as [|f]; [lia|].
+  rewrite (frame_unfold lim q p Hlim) in Heq.
+  destruct (N.leb_spec lim (Nlen p)) as [Hle|Hgt].
+  - assert (Hb : Nlen (firstn (N.to_nat lim) p) = lim) by (apply Nlen_firstn_le; exact Hle).
+    change (le_bytes 3 lim ++ b_of_N q :: firstn (N.to_nat lim) p
+              ++ frame lim ((q + 1) mod 256) (skipn (N.to_nat lim) p))
+      with (le_bytes 3 lim ++ (b_of_N q :: firstn (N.to_nat lim) p)
+              ++ frame lim ((q + 1) mod 256) (skipn (N.to_nat lim) p)) in Heq.
+    rewrite app_assoc in Heq.
+    apply app_split in Heq. destruct Heq as [(l & Hx & Hl)|(l & Hl & Hcut & _)].
+    + subst x. rewrite <- app_assoc. cbn [app].
+      rewrite (packet_f_full_step f lim acc q _ _ _ Hacc (try_full_frame lim q _ _ Hq Hb)).
+      apply (IH (skipn (N.to_nat lim) p)) with (q := (q + 1) mod 256) (y := y).
+      * apply length_skipn_lt; assumption.
+      * apply succ_lt256.
+      * cbn [acc_ok]. reflexivity.
+      * assumption.
+      * assumption.
+      * rewrite app_length in Hfuel. rewrite app_length in Hfuel. cbn [length] in Hfuel. lia.
+    + destruct (cut_pkt lim lim _ _ x l Hlim24 Hlim24 Hb Hcut Hl) as [H1 H2].
+      apply packet_f_need; assumption.
+  - assert (Hp24 : Nlen p < 2 ^ 24) by lia.
+    symmetry in Heq.
+    destruct (cut_pkt lim (Nlen p) _ _ x y Hlim24 Hp24 eq_refl Heq Hy) as [H1 H2].
+    apply packet_f_need; assumption.
+Qed.
 
 (* a complete framed command at the head of the buffer is returned whole, with the id of its
    last packet, and nothing after it is touched *)
 Lemma packet_frame lim q p rest :
   0 < lim -> lim < 2 ^ 24 -> q < 256 ->
   packet lim (frame lim q p ++ rest) = PDone (last_seq lim q p) p rest.
-Admitted.
+Proof.
+  intros Hlim Hlim24 Hq. unfold packet.
+  apply (packet_f_frame lim Hlim Hlim24 (S (length p)) p) with (acc := None);
+    [lia|assumption|exact I|lia].
+Qed.
 
 (* a strict prefix of a framed command never yields a packet (in particular not a wrong one) *)
 Lemma packet_prefix lim q p x y :
   0 < lim -> lim < 2 ^ 24 -> q < 256 ->
   x ++ y = frame lim q p -> y <> [] -> packet lim x = PNeed.
-Admitted.
+Proof.
+  intros Hlim Hlim24 Hq Heq Hy. unfold packet.
+  apply (packet_f_prefix lim Hlim Hlim24 (S (length p)) p) with (q := q) (y := y) (acc := None);
+    [lia|assumption|exact I|assumption|assumption|lia].
+Qed.
 
 (* the inbound byte stream still to be consumed: buffered tail, then the scripted reads *)
 Fixpoint reads_data (l : list rd) : bytes :=
@@ -37,6 +230,137 @@ Definition next_frame_post (s s' : st) : Prop :=
   (exists evs, s_trace s' = evs ++ s_trace s /\ only_reads evs) /\
   (exists k, s_reads s' = skipn k (s_reads s)).
 
+(* ---- helpers: one iteration of next_f ---- *)
+
+Lemma packet_nil lim : packet lim [] = PNeed.
+Proof. reflexivity. Qed.
+
+Lemma next_f_S f s :
+  next_f (S f) s =
+    match packet (s_lim s) (s_buf s) with
+    | PDone q p rest => (ROk (Some (q, p)), set_buf rest s)
+    | PPanicSeq => (RPanic PFragSeq, s)
+    | PFuel => (RPanic POutOfFuel, s)
+    | PNeed =>
+        match t_read s with
+        | (ROk chunk, s1) =>
+            let s2 := set_buf (s_buf s1 ++ chunk) s1 in
+            match chunk with
+            | [] => match s_buf s2 with
+                    | [] => (ROk None, s2)
+                    | _ => (RErr EUnexpectedEof, s2)
+                    end
+            | _ => next_f f s2
+            end
+        | (RErr e, s1) => (RErr e, s1)
+        | (RPanic p, s1) => (RPanic p, s1)
+        end
+    end.
+Proof. cbn [next_f]. destruct (s_buf s); reflexivity. Qed.
+
+Lemma next_f_done f s q p rest :
+  packet (s_lim s) (s_buf s) = PDone q p rest ->
+  next_f (S f) s = (ROk (Some (q, p)), set_buf rest s).
+Proof. intros H. rewrite next_f_S, H. reflexivity. Qed.
+
+Definition after_read (bs : bytes) (r : list rd) (s : st) : st :=
+  set_buf (s_buf s ++ bs) (upd_trace (ERead (Nlen bs)) (set_reads r s)).
+
+Lemma next_f_data f s b bs r :
+  packet (s_lim s) (s_buf s) = PNeed -> s_reads s = RdData (b :: bs) :: r ->
+  next_f (S f) s = next_f f (after_read (b :: bs) r s).
+Proof. intros H Hr. rewrite next_f_S, H. unfold t_read. rewrite Hr. reflexivity. Qed.
+
+Lemma next_f_end_empty f s :
+  s_buf s = [] -> s_reads s = [] ->
+  next_f (S f) s = (ROk None, set_buf [] (upd_trace (ERead 0) s)).
+Proof.
+  intros Hb Hr. rewrite next_f_S, Hb, packet_nil. unfold t_read. rewrite Hr.
+  cbn [s_buf upd_trace set_buf]. rewrite Hb. reflexivity.
+Qed.
+
+Lemma next_f_end_cut f s :
+  packet (s_lim s) (s_buf s) = PNeed -> s_buf s <> [] -> s_reads s = [] ->
+  exists s', next_f (S f) s = (RErr EUnexpectedEof, s').
+Proof.
+  intros H Hb Hr. rewrite next_f_S, H. unfold t_read. rewrite Hr.
+  cbn [s_buf upd_trace set_buf]. rewrite app_nil_r.
+  destruct (s_buf s) as [|b0 bs0]; [congruence|]. eexists. reflexivity.
+Qed.
+
+Lemma all_data_cons r l : all_data (r :: l) ->
+  (exists b bs, r = RdData (b :: bs)) /\ all_data l.
+Proof.
+  intros H. inversion H as [|? ? Hr Hl]; subst. split; [|exact Hl].
+  destruct r as [[|b bs]| |]; try contradiction. eauto.
+Qed.
+
+Lemma all_data_skipn k l : all_data l -> all_data (skipn k l).
+Proof.
+  revert l. induction k as [|k IH]; intros l H; [exact H|].
+  destruct l as [|r l]; [exact H|]. cbn [skipn]. apply IH.
+  inversion H; assumption.
+Qed.
+
+Lemma next_frame_post_done s l : next_frame_post s (set_buf l s).
+Proof.
+  unfold next_frame_post. cbn [set_buf s_fault s_lim s_tw s_seq s_cont s_park s_wops s_trace s_reads].
+  repeat (split; [reflexivity|]). split.
+  - exists []. split; [reflexivity|constructor].
+  - exists 0%nat. reflexivity.
+Qed.
+
+Lemma next_frame_post_step s bs x r s' :
+  s_reads s = x :: r -> next_frame_post (after_read bs r s) s' -> next_frame_post s s'.
+Proof.
+  intros Hr (H1 & H2 & H3 & H4 & H5 & H6 & H7 & (evs & Hev & Hon) & (k & Hk)).
+  unfold after_read in *.
+  cbn [set_buf upd_trace set_reads s_fault s_lim s_tw s_seq s_cont s_park s_wops s_trace s_reads] in *.
+  unfold next_frame_post. repeat (split; [assumption|]). split.
+  - exists (evs ++ [ERead (Nlen bs)]). split.
+    + rewrite <- app_assoc. exact Hev.
+    + apply Forall_app. split; [exact Hon|]. constructor; [exact I|constructor].
+  - exists (S k). rewrite Hr. exact Hk.
+Qed.
+
+(* the read loop, for any sufficient fuel *)
+Lemma next_f_frame q p rest : q < 256 ->
+  forall reads, all_data reads -> forall fuel s,
+  s_reads s = reads -> (length reads < fuel)%nat ->
+  0 < s_lim s -> s_lim s < 2 ^ 24 ->
+  inbound s = frame (s_lim s) q p ++ rest ->
+  exists s',
+    next_f fuel s = (ROk (Some (last_seq (s_lim s) q p, p)), s') /\
+    inbound s' = rest /\ all_data (s_reads s') /\ next_frame_post s s'.
+Proof.
+  intros Hq. induction reads as [|r reads IH]; intros Hall fuel s Hr Hfuel Hl Hl24 Hin;
+    (destruct fuel as [|f]; [cbn [length] in Hfuel; lia|]);
+    unfold inbound in Hin; pose proof Hin as Hin0;
+    apply app_split in Hin; destruct Hin as [(l & Hb & Hrest)|(l & Hlne & Hcut & Hrd)].
+  - exists (set_buf l s). split; [|split; [|split]].
+    + apply next_f_done. rewrite Hb. apply packet_frame; assumption.
+    + unfold inbound. cbn [set_buf s_buf s_reads]. exact Hrest.
+    + cbn [set_buf s_reads]. rewrite Hr. exact Hall.
+    + apply next_frame_post_done.
+  - exfalso. rewrite Hr in Hrd. cbn [reads_data] in Hrd.
+    destruct l; [congruence|discriminate].
+  - exists (set_buf l s). split; [|split; [|split]].
+    + apply next_f_done. rewrite Hb. apply packet_frame; assumption.
+    + unfold inbound. cbn [set_buf s_buf s_reads]. exact Hrest.
+    + cbn [set_buf s_reads]. rewrite Hr. exact Hall.
+    + apply next_frame_post_done.
+  - apply all_data_cons in Hall. destruct Hall as [(b & bs & ->) Hall].
+    assert (Hneed : packet (s_lim s) (s_buf s) = PNeed).
+    { apply (packet_prefix (s_lim s) q p (s_buf s) l); auto. }
+    rewrite (next_f_data f s b bs reads Hneed Hr).
+    destruct (IH Hall f (after_read (b :: bs) reads s) eq_refl ltac:(cbn [length] in Hfuel; lia) Hl Hl24)
+      as (s' & Hn & Hin' & Hall' & Hpost).
+    { unfold inbound, after_read. cbn [set_buf upd_trace set_reads s_buf s_reads s_lim].
+      rewrite <- app_assoc. rewrite <- Hin0. rewrite Hr. reflexivity. }
+    exists s'. split; [exact Hn|]. split; [exact Hin'|]. split; [exact Hall'|].
+    apply (next_frame_post_step s (b :: bs) _ reads s' Hr Hpost).
+Qed.
+
 (* whatever the chunking, next() returns exactly the next framed command and leaves exactly
    the rest of the stream to be consumed *)
 Lemma next_frame s q p rest :
@@ -46,14 +370,59 @@ Lemma next_frame s q p rest :
   exists s',
     next s = (ROk (Some (last_seq (s_lim s) q p, p)), s') /\
     inbound s' = rest /\ all_data (s_reads s') /\ next_frame_post s s'.
-Admitted.
+Proof.
+  intros Hl Hl24 Hq Hall Hin. unfold next.
+  apply (next_f_frame q p rest Hq (s_reads s) Hall); auto.
+Qed.
 
 (* clean end of stream at a packet boundary *)
 Lemma next_eof s :
   all_data (s_reads s) -> inbound s = [] ->
   exists s', next s = (ROk None, s') /\ s_buf s' = [] /\ s_reads s' = [] /\
              s_trace s' = ERead 0 :: s_trace s.
-Admitted.
+Proof.
+  intros Hall Hin. unfold inbound in Hin. apply app_eq_nil in Hin. destruct Hin as [Hb Hrd].
+  assert (Hr : s_reads s = []).
+  { destruct (s_reads s) as [|r l]; [reflexivity|]. exfalso.
+    apply all_data_cons in Hall. destruct Hall as [(b & bs & ->) _].
+    cbn [reads_data app] in Hrd. discriminate. }
+  exists (set_buf [] (upd_trace (ERead 0) s)). split; [|split; [|split]].
+  - unfold next. apply next_f_end_empty; assumption.
+  - reflexivity.
+  - cbn [set_buf upd_trace s_reads]. exact Hr.
+  - reflexivity.
+Qed.
+
+(* the read loop on a stream that ends inside a frame, for any sufficient fuel *)
+Lemma next_f_truncated q p : q < 256 ->
+  forall reads, all_data reads -> forall fuel s y,
+  s_reads s = reads -> (length reads < fuel)%nat ->
+  0 < s_lim s -> s_lim s < 2 ^ 24 ->
+  inbound s <> [] -> y <> [] -> inbound s ++ y = frame (s_lim s) q p ->
+  exists s', next_f fuel s = (RErr EUnexpectedEof, s').
+Proof.
+  intros Hq. induction reads as [|r reads IH]; intros Hall fuel s y Hr Hfuel Hl Hl24 Hne Hy Heq;
+    (destruct fuel as [|f]; [cbn [length] in Hfuel; lia|]);
+    unfold inbound in *; rewrite Hr in *.
+  - cbn [reads_data] in *. rewrite app_nil_r in *.
+    apply next_f_end_cut; [|assumption|assumption].
+    apply (packet_prefix (s_lim s) q p (s_buf s) y); assumption.
+  - apply all_data_cons in Hall. destruct Hall as [(b & bs & ->) Hall].
+    cbn [reads_data] in *.
+    assert (Hneed : packet (s_lim s) (s_buf s) = PNeed).
+    { apply (packet_prefix (s_lim s) q p (s_buf s) (((b :: bs) ++ reads_data reads) ++ y));
+        try assumption.
+      - rewrite app_assoc. exact Heq.
+      - cbn [app]. discriminate. }
+    rewrite (next_f_data f s b bs reads Hneed Hr).
+    apply (IH Hall f (after_read (b :: bs) reads s) y); try assumption.
+    + reflexivity.
+    + cbn [length] in Hfuel. lia.
+    + unfold inbound, after_read. cbn [set_buf upd_trace set_reads s_buf s_reads].
+      rewrite <- app_assoc. exact Hne.
+    + unfold inbound, after_read. cbn [set_buf upd_trace set_reads s_buf s_reads s_lim].
+      rewrite <- (app_assoc (s_buf s) (b :: bs)). exact Heq.
+Qed.
 
 (* the stream ends inside a packet: an error, never a packet *)
 Lemma next_truncated s q p x y :
@@ -61,7 +430,10 @@ Lemma next_truncated s q p x y :
   all_data (s_reads s) ->
   inbound s = x -> x <> [] -> y <> [] -> x ++ y = frame (s_lim s) q p ->
   exists s', next s = (RErr EUnexpectedEof, s').
-Admitted.
+Proof.
+  intros Hl Hl24 Hq Hall Hin Hx Hy Heq. subst x. unfold next.
+  apply (next_f_truncated q p Hq (s_reads s) Hall _ s y); auto.
+Qed.
 
 (* all commands of a stream, in order, exactly once: iterate next() *)
 Fixpoint drain (fuel : nat) (s : st) : list (N * bytes) * res unit * st :=
@@ -78,6 +450,16 @@ Fixpoint drain (fuel : nat) (s : st) : list (N * bytes) * res unit * st :=
 Fixpoint frames (lim : N) (cmds : list (N * bytes)) : bytes :=
   match cmds with [] => [] | (q, p) :: r => frame lim q p ++ frames lim r end.
 
+Lemma drain_S f s :
+  drain (S f) s =
+    match next s with
+    | (ROk (Some x), s') => let '(l, r, s'') := drain f s' in (x :: l, r, s'')
+    | (ROk None, s') => ([], ROk tt, s')
+    | (RErr e, s') => ([], RErr e, s')
+    | (RPanic p, s') => ([], RPanic p, s')
+    end.
+Proof. reflexivity. Qed.
+
 Theorem reassembly s cmds :
   0 < s_lim s -> s_lim s < 2 ^ 24 -> Forall (fun c => fst c < 256) cmds ->
   all_data (s_reads s) ->
@@ -85,4 +467,23 @@ Theorem reassembly s cmds :
   exists s',
     drain (S (length cmds)) s =
       (map (fun c => (last_seq (s_lim s) (fst c) (snd c), snd c)) cmds, ROk tt, s').
-Admitted.
+Proof.
+  revert s. induction cmds as [|[q p] cmds IH]; intros s Hl Hl24 Hq Hall Hin.
+  - cbn [frames] in Hin. destruct (next_eof s Hall Hin) as (s' & Hn & _).
+    exists s'. cbn [length map]. rewrite drain_S, Hn. reflexivity.
+  - cbn [frames] in Hin. inversion Hq as [|? ? Hq1 Hq2]; subst. cbn [fst] in Hq1.
+    destruct (next_frame s q p _ Hl Hl24 Hq1 Hall Hin) as (s1 & Hn & Hin1 & Hall1 & Hpost).
+    destruct Hpost as (_ & Hlim1 & _).
+    destruct (IH s1) as (s' & Hd).
+    + rewrite Hlim1. exact Hl.
+    + rewrite Hlim1. exact Hl24.
+    + exact Hq2.
+    + exact Hall1.
+    + rewrite Hlim1. exact Hin1.
+    + exists s'. cbn [length]. rewrite drain_S, Hn, Hd. rewrite Hlim1.
+      cbn [map fst snd]. reflexivity.
+Qed.
+
+Print Assumptions reassembly.
+Print Assumptions next_frame.
+Print Assumptions packet_prefix.
